@@ -139,3 +139,29 @@ PROPS["C17"] = dict(
 # properties whose check is integrated, silent on the unchanged tree modulo listed known
 # findings, and has been shown to see at least one seeded break: only these are claimed
 READY = ["C09", "C10", "C11", "C19", "C20"]
+
+# workloads implemented entirely in vcore (no format crates): run through the vcore-run binary
+for _p in ("SELF", "C09", "C10", "C11", "C12", "C13", "C19", "C20"):
+    PROPS[_p]["core"] = True
+
+PROPS["C07"] = dict(
+    quick=[st("quick", 90)],
+    thorough=[st("thorough", 900)],
+    floor=dict(quick=200, thorough=1000),
+    rule="Parquet files from four generators (general nested schemas with every WriterProperties knob; flat long columns; typed = every leaf type x value shapes {random, ascending, descending, constant, NaN runs, null runs, all-null} x page rows 1-50 x statistics levels x truncation lengths {1..8,16,32,63,64,65,none} x bloom fpp/ndv; lowlevel = typed column writers for BYTE_ARRAY/FLBA/INT decimals, INT96, unsigned/converted types); every chunk decoded with the low-level column reader and compared page by page (sequentially and at offset-index locations) against footer statistics, column index, offset index, page-header statistics, bloom filters and StatisticsConverter output under an independently written sort-order table; class = (section, order x physical type class, flat|nested, statistics level, truncation class, outcome)",
+    level="exploration",
+    level_text="Runtime soundness oracle for every statistic the Parquet writer emits: bounds bound, exact flags attained, counts exact, boundary order true, offset index tiles the chunk, every value bloom-positive, converter output bounds the same data; quick ~1.7k files/shard, thorough ~11k.",
+    level_note="Trusts the independent sort-order model in c07core.rs. Tightness of non-exact bounds, presence of statistics, distinct counts and orders the format leaves undefined are not asserted.",
+    technique="runtime invariant monitor over decoded pages vs written metadata (independent sort-order model)",
+)
+
+PROPS["C15"] = dict(
+    quick=[st("quick", 90)],
+    thorough=[st("thorough", 900)],
+    floor=dict(quick=200, thorough=1000),
+    rule="(file, reader options, I/O schedule) triples: files from the C05 generator; options = page index policy, batch size, row-group subset, projection, RowSelection (selector/mask), 0-3 predicates, offset, limit, selection policy; schedules = push decoder (5 drive modes x 10 supply presets: exact, shuffled+split, partial rounds, supersets, coalesced, duplicated, chaos with unrelated ranges, whole file early, prefetch; into_builder rebuilds never/at start/always/random) and async stream over an adversarial AsyncFileReader (per-range/vectored/coalesced/reversed fetch, metadata up front or fetched with prefetch hints, futures pending 0-3 times with self-wake or parked waker, manual executor re-polling only on wake); oracle: same rows as the sync reader, requested ranges within the file, no re-request of supplied ranges, bounded NeedsData rounds/polls, no lost wake; distinct schedules observed are counted; class = (front-end, drive mode, supply preset / reader kind, option class, outcome)",
+    level="exploration",
+    level_text="Differential runtime check of the three Parquet read front-ends under adversarial I/O schedules produced by harness-written readers, suppliers and a manual executor; liveness is restated as bounded progress (decode steps <= 10 x (#pages + #row groups + 10), every Pending has a pending wake).",
+    level_note="Trusts the sync reader as reference (its own correctness is C05/C06). Number, shape and order of requests and batch boundaries are not asserted.",
+    technique="differential testing across reader front-ends under injected I/O schedules, bounded-progress and wake-accounting monitors",
+)
